@@ -13,6 +13,41 @@ TABLE = {
         "Generated-input exploration: thousands of converters with nested / overlapping / one-character-different URI prefixes (incl. the empty one) are probed around every prefix boundary and every answer of parse_uri / compress / is_uri is compared with an independent linear-scan model on four differently ordered constructions. This finds wrong-match, off-by-one and stale-index defects; it does not prove absence.",
         "Trusts the 30-line reference model in pbt/model.py and Hypothesis' generation; small alphabets plus long realistic URL prefixes stand in for all strings.",
     ),
+    "C02": (
+        "Hypothesis property test, differential against a linear-scan reference model of CURIE parsing/expansion over generated synonym-rich converters and (prefix, identifier) pairs",
+        "Generated-input exploration of expand / expand_pair / expand_reference / parse_curie / expand_all / expand_pair_all / is_curie against an independent model (split at the first delimiter, unique owner, canonical URI prefix, synonym multiset). Finds wrong-owner, wrong-split, dropped-synonym and empty-prefix defects; no absence claim.",
+        "Trusts pbt/model.py; prefixes are delimiter-free by construction as the property's domain demands.",
+    ),
+    "C03": (
+        "Hypothesis property test with round-trip / metamorphic oracles (compress-expand_all membership, expand∘compress = standardize_uri, bijection on prefix-free maps)",
+        "Generated-input exploration of the losslessness and inverse laws over arbitrary lattices and over prefix-free URI prefix sets; the model only decides which precondition applies.",
+        "Round-trip oracles are self-relations of the implementation; absolute values are pinned by C01/C02.",
+    ),
+    "C04": (
+        "Hypothesis property test: generated record collections with replacement vs. a clash-set reference model; all loaders; self-synonym records",
+        "Generated-input exploration of strict construction through Converter(...), the EPM/prefix-map/priority/reverse/JSON-LD loaders and Record validators: accept iff no string is claimed by two different records, exception type and listing sound and complete, bijective bimap on success.",
+        "Trusts pbt/model.py:clash_sets; small pools make clashes of every kind frequent.",
+    ),
+    "C05": (
+        "Hypothesis rule-based state machine (add_record / add_prefix histories) with a reference model for accept/reject/merge and a freshly constructed converter as index oracle, invariant checked after every step",
+        "Stateful generated exploration: after every operation of a random history the decision, the records, the five lookup structures and the answers of the query API are compared with the documented rule and with a fresh converter; rejected calls must change nothing.",
+        "Trusts pbt/model.py:add_record and Converter.__init__ (itself pinned by C01/C02/C04).",
+    ),
+    "C06": (
+        "Hypothesis property test: model differential plus idempotence / meaning-preservation laws for standardize_prefix / _curie / _uri",
+        "Generated-input exploration of the three standardisers against the linear-scan model and the algebraic laws, with a prefix-free arm for the standardize_uri clauses.",
+        "Trusts pbt/model.py.",
+    ),
+    "C07": (
+        "Hypothesis property test over deliberately ambiguous converters: equivalences between derived operations and the two primitive parsers, model decides the side",
+        "Generated-input exploration of is_uri/compress/parse_uri, is_curie/expand, parse precedence, *_or_standardize, format_curie and *_strict on strings that are CURIE, URI, both, neither, delimiter-free or empty.",
+        "Trusts pbt/model.py for which side recognises a string.",
+    ),
+    "C08": (
+        "Hypothesis property test: metamorphic relation between default / passthrough / strict modes of the 14 functions on the same input, with an exception-type whitelist",
+        "Generated-input exploration of all mode combinations on success and failure paths (empty, delimiter-free, unknown, arbitrary Unicode): default never raises, passthrough returns input, strict raises only library errors.",
+        "Mode relation only; the values are pinned by C01/C02/C06.",
+    ),
 }
 
 checks, na = [], []
